@@ -3,8 +3,12 @@
 //! vmbody \t opt \t sec(3|4) \t role(client|server) \t sess(iv16‖key16‖v hex) \t ops
 //!     ops: E<hex> encode_payload (bytes compared) | e<hex> same, status only (random padding bytes)
 //!          P<hex> / p<hex> encode_packet | D<hex> bytes arrive, decode_payload drain | U<hex> bytes arrive, decode_packet drain
-//! vmsrv \t now \t uuids(csv) \t ops       ops: D<hex> | E<hex> | e<hex>   (ServerAeadCodec)
+//!          R<n>,<hex> encode_payload n times, output dropped | L<n>,<hex> / M<n>,<hex> n times: the peer end's encoder writes the
+//!          payload / packet and this end's decoder reads it (counters far from 0 without megabytes of case text)
+//!     sec is any u8 (SecurityType::from), opt any u8
+//! vmsrv \t now \t uuids(csv, "-" = no user) \t ops       ops: D<hex> | E<hex> | e<hex>   (ServerAeadCodec)
 //! vmcli \t uuid \t opt \t sec \t cmd(1|2) \t addr \t sess \t now \t ops   ops: e<hex> | D<hex>   (ClientAEADCodec with chosen session)
+//! vmrt \t uuid \t opt \t sec \t cmd \t addr \t sess \t now \t up \t down   client -> server -> client on the real codecs (see run_rt)
 use std::io::Write;
 
 use bytes::BytesMut;
@@ -47,11 +51,15 @@ fn run_body(f: &[&str]) -> String {
     let sec: u8 = f[2].parse().unwrap();
     let sess = unhex(f[4]);
     let hd = header(opt, sec, 1, parse_addr("4:7f000001:1"), [0; 16]);
-    let mut cs = ClientSession::from(&sess[..]);
-    let mut ss: ServerSession = cs.clone().into();
-    let session: &mut dyn Session = if f[3] == "client" { &mut cs } else { &mut ss };
+    let cs = ClientSession::from(&sess[..]);
+    let ss: ServerSession = cs.clone().into();
+    // `own` is the session of this role, `peer` the session object of the other end of the same connection (ops L / M)
+    let (mut own, mut peer): (Box<dyn Session>, Box<dyn Session>) = if f[3] == "client" { (Box::new(cs), Box::new(ss)) } else { (Box::new(ss), Box::new(cs)) };
+    let session: &mut dyn Session = &mut *own;
+    let peer_session: &mut dyn Session = &mut *peer;
     let mut enc = AEADBodyCodec::new_encoder(&hd, session).unwrap();
     let mut dec = AEADBodyCodec::new_decoder(&hd, session).unwrap();
+    let mut peer_enc = AEADBodyCodec::new_encoder(&hd, peer_session).unwrap();
     let mut buf = BytesMut::new();
     let mut out = Vec::new();
     let mut dead = false;
@@ -64,6 +72,58 @@ fn run_body(f: &[&str]) -> String {
             continue;
         }
         let (c, arg) = op.split_at(1);
+        if c == "R" || c == "L" || c == "M" {
+            let (k, d) = arg.split_once(',').expect("repeat op");
+            let k: usize = k.parse().expect("repeat count");
+            let data = unhex(d);
+            if c == "R" {
+                // encode_payload k times, output discarded: advances the counters
+                let r = catch(|| {
+                    for _ in 0..k {
+                        let mut dst = BytesMut::new();
+                        enc.encode_payload(BytesMut::from(&data[..]), &mut dst, session)?;
+                    }
+                    Ok(BytesMut::new())
+                });
+                out.push(aead_res(r, false, &mut dead));
+            } else {
+                // k times: the peer's encoder writes the payload (L) / the packet (M), this role's decoder reads it at once
+                let r = catch(|| {
+                    let mut last = "-".to_string();
+                    for i in 0..k {
+                        let mut wire = BytesMut::new();
+                        let e = if c == "L" { peer_enc.encode_payload(BytesMut::from(&data[..]), &mut wire, peer_session) } else { peer_enc.encode_packet(BytesMut::from(&data[..]), &mut wire, peer_session) };
+                        if e.is_err() {
+                            return Err("ERR Aead".to_string());
+                        }
+                        let d = if c == "L" { dec.decode_payload(&mut wire, session) } else { dec.decode_packet(&mut wire, session) };
+                        match d {
+                            Ok(it) => {
+                                if !wire.is_empty() {
+                                    return Err("ERR Leftover".to_string());
+                                }
+                                last = it.map(|x| hex(&x)).unwrap_or_else(|| "none".into());
+                            }
+                            Err(_) => return Err("ERR Aead".to_string()),
+                        }
+                        let _ = i;
+                    }
+                    Ok(format!("LOOP ok={} last={}", k, last))
+                });
+                out.push(match r {
+                    Ok(Ok(x)) => x,
+                    Ok(Err(x)) => {
+                        dead = true;
+                        x
+                    }
+                    Err(_) => {
+                        dead = true;
+                        "PANIC".into()
+                    }
+                });
+            }
+            continue;
+        }
         let data = unhex(arg);
         match c {
             "E" | "e" => {
@@ -116,7 +176,7 @@ fn run_body(f: &[&str]) -> String {
 fn run_srv(f: &[&str]) -> String {
     let now: i64 = f[1].parse().unwrap();
     octo_squirrel::verif_clock::set(Some(now));
-    let users: Vec<String> = f[2].split(',').map(|s| s.to_string()).collect();
+    let users: Vec<String> = if f[2] == "-" { Vec::new() } else { f[2].split(',').map(|s| s.to_string()).collect() };
     let mut codec = sh::vmess::new_codec(&server_config("vmess", "aes-128-gcm", "unused", &users)).unwrap();
     let mut buf = BytesMut::new();
     let mut out = Vec::new();
@@ -215,6 +275,60 @@ fn run_cli(f: &[&str]) -> String {
     out.join(" | ")
 }
 
+/// vmrt \t uuid \t opt \t sec \t cmd \t addr \t sess \t now \t up \t down : the whole exchange on the real codecs: the client
+/// encodes `up` for `addr`, a server that knows only this user decodes it and answers `down`, the client decodes the answer.
+/// The model performs the same exchange with its own encoders, so target address and payloads are compared end to end
+/// (vmsrv alone decodes bytes the implementation's client wrote: an address the client mis-encodes would go unnoticed there).
+fn run_rt(f: &[&str]) -> String {
+    let id = octo_squirrel::protocol::vmess::id::from_password(f[1]).unwrap();
+    let opt: u8 = f[2].parse().unwrap();
+    let sec: u8 = f[3].parse().unwrap();
+    let cmd: u8 = f[4].parse().unwrap();
+    let sess = unhex(f[6]);
+    let now: i64 = f[7].parse().unwrap();
+    let (up, down) = (unhex(f[8]), unhex(f[9]));
+    octo_squirrel::verif_clock::set(Some(now));
+    let mut client = ch::vmess::ClientAEADCodec::verif_with_session(header(opt, sec, cmd, parse_addr(f[5]), id), ClientSession::from(&sess[..]));
+    let mut server = sh::vmess::new_codec(&server_config("vmess", "aes-128-gcm", "unused", &[f[1].to_string()])).unwrap();
+    let r = catch(|| {
+        let mut dst = BytesMut::new();
+        client.encode(BytesMut::from(&up[..]), &mut dst).map(|_| dst)
+    });
+    let wire = match r {
+        Ok(Ok(d)) => d,
+        Ok(Err(e)) => {
+            octo_squirrel::verif_clock::set(None);
+            return format!("ENC ERR {}", classify(&e));
+        }
+        Err(_) => {
+            octo_squirrel::verif_clock::set(None);
+            return "ENC PANIC".into();
+        }
+    };
+    let mut buf = BytesMut::new();
+    let d = drain(&mut server, &mut buf, &wire, show_inbound);
+    let l1 = line(&d, buf.len());
+    let l2 = if d.dead || d.items.is_empty() {
+        "SKIP".to_string()
+    } else {
+        let r = catch(|| {
+            let mut dst = BytesMut::new();
+            server.encode(sh::OutboundIn::Tcp(BytesMut::from(&down[..])), &mut dst).map(|_| dst)
+        });
+        match r {
+            Ok(Ok(back)) => {
+                let mut buf = BytesMut::new();
+                let d = drain(&mut client, &mut buf, &back, |b: BytesMut| hex(&b));
+                line(&d, buf.len())
+            }
+            Ok(Err(e)) => format!("ENC ERR {}", classify(&e)),
+            Err(_) => "ENC PANIC".into(),
+        }
+    };
+    octo_squirrel::verif_clock::set(None);
+    format!("{} | {}", l1, l2)
+}
+
 /// KNOWN FINDING F-12b probe: with AuthenticatedLength the size field of the first chunk of BOTH directions is sealed
 /// under the same key and nonce: for equal chunk sizes the two 18-byte size fields are byte-identical
 fn run_authlen(f: &[&str]) -> String {
@@ -239,6 +353,7 @@ pub fn exec(f: &[&str]) -> Vec<String> {
         "vmbody" => run_body(f),
         "vmsrv" => run_srv(f),
         "vmcli" => run_cli(f),
+        "vmrt" => run_rt(f),
         _ => "UNKNOWN".into(),
     });
     vec![r.unwrap_or_else(|_| "PANIC".into())]
@@ -293,20 +408,87 @@ pub fn generate(w: &mut dyn Write, seed: u64, thorough: bool) {
     if thorough {
         masks.extend((0u8..32).filter(|m| ![1u8, 5, 9, 13, 17, 25, 29, 21, 0, 4].contains(m)));
     } else {
+        // none of the ten usual masks has the ConnectionReuse bit (2): two of the four extra masks always carry it
         while masks.len() < 14 {
-            let m = rng.below(32) as u8;
+            let m = if masks.len() < 12 { rng.below(32) as u8 | 2 } else { rng.below(32) as u8 };
             if !masks.contains(&m) {
                 masks.push(m);
             }
         }
     }
+    // the cases of the dimension audit are generated first (own generator state) and dealt evenly into the stream of the
+    // others: the case file is evaluated in contiguous shards, a block of expensive cases at one place would make one shard slow
+    let mut aud_rng = rng.fork();
+    let mut abuf: Vec<u8> = Vec::new();
+    generate_audit(&mut abuf, &mut aud_rng, &masks, thorough, now);
+    let mut iw = Interleave::new(w, &abuf, 6);
+    generate_main(&mut iw, &mut rng, &masks, thorough, seed, now);
+    iw.finish();
+}
+
+/// forwards everything to `inner` and puts one held-back line behind every `every`-th complete line
+struct Interleave<'a> {
+    inner: &'a mut dyn Write,
+    extra: Vec<Vec<u8>>,
+    next: usize,
+    lines: usize,
+    every: usize,
+}
+
+impl<'a> Interleave<'a> {
+    fn new(inner: &'a mut dyn Write, held: &[u8], every: usize) -> Self {
+        let all: Vec<&[u8]> = held.split(|b| *b == b'\n').filter(|l| !l.is_empty()).collect();
+        // stride permutation (stride ~ 0.38 n, coprime to n): neighbours of the generator end up far apart
+        let n = all.len();
+        let gcd = |mut a: usize, mut b: usize| {
+            while b != 0 {
+                (a, b) = (b, a % b);
+            }
+            a
+        };
+        let mut stride = (n * 38 / 100).max(1);
+        while n > 1 && gcd(stride, n) != 1 {
+            stride += 1;
+        }
+        let extra = (0..n).map(|i| all[(i * stride) % n].to_vec()).collect();
+        Interleave { inner, extra, next: 0, lines: 0, every }
+    }
+    fn finish(&mut self) {
+        while self.next < self.extra.len() {
+            self.inner.write_all(&self.extra[self.next]).unwrap();
+            self.inner.write_all(b"\n").unwrap();
+            self.next += 1;
+        }
+    }
+}
+
+impl Write for Interleave<'_> {
+    fn write(&mut self, buf: &[u8]) -> std::io::Result<usize> {
+        self.inner.write_all(buf)?;
+        // case lines contain no line feed: one only ever arrives as the last byte of a line
+        if buf.last() == Some(&b'\n') {
+            self.lines += 1;
+            if self.lines % self.every == 0 && self.next < self.extra.len() {
+                self.inner.write_all(&self.extra[self.next])?;
+                self.inner.write_all(b"\n")?;
+                self.next += 1;
+            }
+        }
+        Ok(buf.len())
+    }
+    fn flush(&mut self) -> std::io::Result<()> {
+        self.inner.flush()
+    }
+}
+
+fn generate_main(w: &mut dyn Write, rng: &mut Rng, masks: &[u8], thorough: bool, seed: u64, now: i64) {
     let per = if thorough { 24 } else { 6 };
     // ---- body level: all masks x securities x directions, stream and packet mode ----
-    for &opt in &masks {
+    for (mi, &opt) in masks.iter().enumerate() {
         for sec in [3u8, 4] {
             let sess = rng.bytes(33);
             let padded = opt & 8 != 0;
-            for role in ["client", "server"] {
+            for (ri, role) in ["client", "server"].into_iter().enumerate() {
                 let peer = if role == "client" { "server" } else { "client" };
                 // stream mode
                 let writes = [rng.bytes(1), rng.bytes(300), rng.bytes(2048), rng.bytes(5000), vec![]];
@@ -319,7 +501,7 @@ pub fn generate(w: &mut dyn Write, seed: u64, thorough: bool) {
                     a2[5] = a2[5].replace('E', "e");
                 }
                 crate::emit_case(w, &a2, exec);
-                for segs in cuts(&mut rng, &wire, 40, per) {
+                for segs in cuts(rng, &wire, 40, per) {
                     crate::emit_case(w, &["vmbody".to_string(), opt.to_string(), sec.to_string(), peer.to_string(), hex(&sess), ops("D", &segs), format!("@x={}", hex(&writes.concat()))], exec);
                 }
                 // tiny writes: chunks shorter than a size field / tag; every two-cut and byte-by-byte
@@ -328,10 +510,21 @@ pub fn generate(w: &mut dyn Write, seed: u64, thorough: bool) {
                 let ta = vec!["vmbody".to_string(), opt.to_string(), sec.to_string(), role.to_string(), hex(&sess), tops.join(";")];
                 let tfa: Vec<&str> = ta.iter().map(|s| s.as_str()).collect();
                 let twire: Vec<u8> = outputs(&exec(&tfa)[0]).concat();
-                let mut tcuts: Vec<Vec<Vec<u8>>> = (1..twire.len()).step_by(if thorough { 1 } else { 2 }).map(|c| vec![twire[..c].to_vec(), twire[c..].to_vec()]).collect();
+                // quick: every second cut point; which parity is taken alternates with mask, security, role and seed, so that the
+                // two roles of one (mask, security) pair cover both parities (field boundaries fall on odd and on even offsets)
+                let first_cut = if thorough { 1 } else { 1 + (mi + sec as usize + ri + seed as usize) % 2 };
+                let mut tcuts: Vec<Vec<Vec<u8>>> = (first_cut..twire.len()).step_by(if thorough { 1 } else { 2 }).map(|c| vec![twire[..c].to_vec(), twire[c..].to_vec()]).collect();
                 tcuts.push(twire.iter().map(|b| vec![*b]).collect());
+                tcuts.push(vec![twire.clone()]); // all eight chunks in one read
                 for segs in tcuts {
                     crate::emit_case(w, &["vmbody".to_string(), opt.to_string(), sec.to_string(), peer.to_string(), hex(&sess), ops("D", &segs), format!("@x={}", hex(&tiny.concat()))], exec);
+                }
+                // single-bit flips anywhere in the coalesced tiny chunks: a bad chunk decoded in the same call as good ones, and followed by more
+                for _ in 0..(if thorough { 60 } else { 10 }) {
+                    let mut m = twire.clone();
+                    let bit = rng.below((m.len() * 8) as u64) as usize;
+                    m[bit / 8] ^= 1 << (bit % 8);
+                    crate::emit_case(w, &["vmbody".to_string(), opt.to_string(), sec.to_string(), peer.to_string(), hex(&sess), format!("D{}", hex(&m)), format!("@p={}", hex(&tiny.concat()))], exec);
                 }
                 // packet mode: sizes around every limit; each packet one chunk
                 let sizes: &[usize] = if thorough { &[0, 1, 100, 1400, 1993, 2047, 2048, 2049, 8192, 65456, 65457, 65507] } else { &[0, 1, 1400, 2049, 65456, 65457] };
@@ -346,7 +539,7 @@ pub fn generate(w: &mut dyn Write, seed: u64, thorough: bool) {
                     a2[5] = a2[5].replace('P', "p");
                 }
                 crate::emit_case(w, &a2, exec);
-                for segs in cuts(&mut rng, &pw, 30, per / 2 + 1) {
+                for segs in cuts(rng, &pw, 30, per / 2 + 1) {
                     crate::emit_case(w, &["vmbody".to_string(), opt.to_string(), sec.to_string(), peer.to_string(), hex(&sess), ops("U", &segs), format!("@x={}", hex(&pk[..pk.len().min(4)].concat()))], exec);
                 }
                 for big in &pops[4.min(pops.len())..] {
@@ -358,9 +551,11 @@ pub fn generate(w: &mut dyn Write, seed: u64, thorough: bool) {
                 }
                 // mutations of the stream: bit flips near the first chunks (masked/plain lengths are unauthenticated)
                 let flips = if thorough { 400 } else { 40 };
-                for _ in 0..flips {
-                    let mut m = wire[..wire.len().min(700)].to_vec();
-                    let bit = rng.below((m.len().min(120) * 8) as u64) as usize;
+                for fi in 0..flips {
+                    // three of four flips near the first chunks; every fourth one anywhere in the first 3000 bytes (quick) / the whole
+                    // stream (thorough): later chunks, their size fields, tags and - unauthenticated - padding
+                    let mut m = if fi % 4 == 3 { wire[..wire.len().min(if thorough { usize::MAX } else { 3000 })].to_vec() } else { wire[..wire.len().min(700)].to_vec() };
+                    let bit = if fi % 4 == 3 { rng.below((m.len() * 8) as u64) as usize } else { rng.below((m.len().min(120) * 8) as u64) as usize };
                     m[bit / 8] ^= 1 << (bit % 8);
                     crate::emit_case(w, &["vmbody".to_string(), opt.to_string(), sec.to_string(), peer.to_string(), hex(&sess), format!("D{}", hex(&m)), format!("@p={}", hex(&writes.concat()))], exec);
                     let mut m = pw[..pw.len().min(700)].to_vec();
@@ -413,7 +608,7 @@ pub fn generate(w: &mut dyn Write, seed: u64, thorough: bool) {
                 // server decodes the request (segmentations), then answers; the answer goes to the client
                 let resp_writes = [rng.bytes(3), rng.bytes(900)];
                 let mut resp: Vec<u8> = Vec::new();
-                for (si, segs) in cuts(&mut rng, &req, head_len.min(130), per).iter().enumerate() {
+                for (si, segs) in cuts(rng, &req, head_len.min(130), per).iter().enumerate() {
                     let mut o = ops("D", segs);
                     for x in &resp_writes {
                         o.push_str(&format!(";{}{}", if opt & 8 != 0 { "e" } else { "E" }, hex(x)));
@@ -428,7 +623,7 @@ pub fn generate(w: &mut dyn Write, seed: u64, thorough: bool) {
                     crate::emit_case(w, &sa, exec);
                 }
                 if !resp.is_empty() {
-                    for segs in cuts(&mut rng, &resp, 60, per) {
+                    for segs in cuts(rng, &resp, 60, per) {
                         let o = format!("e{};{}", hex(&writes[0]), ops("D", &segs));
                         let xp = resp_writes.concat();
                         crate::emit_case(w, &["vmcli".to_string(), uuid.clone(), opt.to_string(), sec.to_string(), cmd.to_string(), addr.clone(), hex(&sess), now.to_string(), o, format!("@x={}", hex(&xp))], exec);
@@ -443,7 +638,8 @@ pub fn generate(w: &mut dyn Write, seed: u64, thorough: bool) {
                 }
                 // truncations and flips of the request head; unknown user; stale auth id (clock +-120/121 and far)
                 if ci < 3 || thorough {
-                    for cut in (0..(head_len + 30).min(req.len())).step_by(if thorough { 1 } else { 2 }) {
+                    let first_cut = if thorough { 0 } else { (ci + sec as usize + cmd as usize + seed as usize) % 2 };
+                    for cut in (first_cut..(head_len + 30).min(req.len())).step_by(if thorough { 1 } else { 2 }) {
                         crate::emit_case(w, &["vmsrv".to_string(), now.to_string(), users.clone(), format!("D{}", hex(&req[..cut])), format!("@p={}", hex(&writes.concat()))], exec);
                     }
                     for _ in 0..(if thorough { 300 } else { 30 }) {
@@ -497,5 +693,733 @@ pub fn generate(w: &mut dyn Write, seed: u64, thorough: bool) {
     for l in (0..120).step_by(if thorough { 1 } else { 3 }) {
         crate::emit_case(w, &["vmsrv".to_string(), now.to_string(), uuids[0].clone(), format!("D{}", hex(&rng.bytes(l))), "@n".to_string()], exec);
         crate::emit_case(w, &["vmcli".to_string(), uuids[0].clone(), "13".into(), "3".into(), "1".into(), addrs[0].clone(), hex(&rng.bytes(33)), now.to_string(), format!("eaa;D{}", hex(&rng.bytes(l))), "@n".to_string()], exec);
+    }
+}
+
+// =================================================================================================
+// Dimension audit (seeded/audit/aud-vm.md).  Everything below varies a dimension the generator above left at one value.
+// Requests and response heads are written by an INDEPENDENT SENDER kept here (field by field, sealed with the primitive
+// server's AEAD), so that every header field, the auth id's timestamp and the checksum can take any value: ciphertext
+// tampering never gets past the AEAD, the field checks behind it are only reachable with well-authenticated input.
+// =================================================================================================
+mod craft {
+    use octo_squirrel::protocol::vmess::aead::kdf;
+
+    pub fn fnv1a32(data: &[u8]) -> u32 {
+        let mut h: u32 = 2166136261;
+        for b in data {
+            h ^= *b as u32;
+            h = h.wrapping_mul(16777619);
+        }
+        h
+    }
+    pub fn kdf16(key: &[u8], path: &[&[u8]]) -> Vec<u8> {
+        kdf::kdf16(key, path.to_vec()).to_vec()
+    }
+    pub fn kdf12(key: &[u8], path: &[&[u8]]) -> Vec<u8> {
+        kdf::kdf(key, path.to_vec())[..12].to_vec()
+    }
+    pub fn seal(cipher: &str, key: &[u8], iv12: &[u8], aad: &[u8], pt: &[u8]) -> Vec<u8> {
+        crate::prims::aead(cipher, true, key, iv12, aad, pt).expect("seal")
+    }
+    /// AES-128-ECB(kdf16(cmd key, "AES Auth ID Encryption"), time(8) || random(4) || crc32(first 12) ^ crc_xor)
+    pub fn auth_id(cmdkey: &[u8], ts: i64, rnd4: &[u8], crc_xor: u32) -> Vec<u8> {
+        let mut b = ts.to_be_bytes().to_vec();
+        b.extend_from_slice(&rnd4[..4]);
+        let crc = crc::Crc::<u32>::new(&crc::CRC_32_ISO_HDLC).checksum(&b) ^ crc_xor;
+        b.extend_from_slice(&crc.to_be_bytes());
+        crate::prims::aes_block(true, &kdf16(cmdkey, &[b"AES Auth ID Encryption"]), &b).expect("aes")
+    }
+    /// auth id || sealed length || connection nonce || sealed header; `claimed` = the length written into the length field
+    pub fn seal_header(cmdkey: &[u8], authid: &[u8], cnonce: &[u8], header: &[u8], claimed: Option<u16>) -> Vec<u8> {
+        let len = claimed.unwrap_or(header.len() as u16).to_be_bytes();
+        let mut out = authid.to_vec();
+        out.extend(seal("aes128gcm", &kdf16(cmdkey, &[kdf::SALT_LENGTH_KEY, authid, cnonce]), &kdf12(cmdkey, &[kdf::SALT_LENGTH_IV, authid, cnonce]), authid, &len));
+        out.extend_from_slice(cnonce);
+        out.extend(seal("aes128gcm", &kdf16(cmdkey, &[kdf::SALT_PAYLOAD_KEY, authid, cnonce]), &kdf12(cmdkey, &[kdf::SALT_PAYLOAD_IV, authid, cnonce]), authid, header));
+        out
+    }
+    /// VMess-style address: port, type (1 IPv4 / 2 domain / 3 IPv6), [length,] bytes
+    pub fn addr_wire(kind: u8, host: &[u8], port: u16) -> Vec<u8> {
+        let mut v = port.to_be_bytes().to_vec();
+        v.push(kind);
+        if kind == 2 {
+            v.push(host.len() as u8);
+        }
+        v.extend_from_slice(host);
+        v
+    }
+    /// sealed response head: length block (2 + 16) and header block under the response key / iv of the session
+    pub fn resp_head(sess: &[u8], hdr: &[u8], claimed: Option<u16>) -> Vec<u8> {
+        use sha2::Digest;
+        let resp_key = sha2::Sha256::digest(&sess[16..32])[..16].to_vec();
+        let resp_iv = sha2::Sha256::digest(&sess[0..16])[..16].to_vec();
+        let len = claimed.unwrap_or(hdr.len() as u16).to_be_bytes();
+        let mut out = seal("aes128gcm", &kdf16(&resp_key, &[kdf::SALT_AEAD_RESP_HEADER_LEN_KEY]), &kdf12(&resp_iv, &[kdf::SALT_AEAD_RESP_HEADER_LEN_IV]), &[], &len);
+        out.extend(seal("aes128gcm", &kdf16(&resp_key, &[kdf::SALT_AEAD_RESP_HEADER_PAYLOAD_KEY]), &kdf12(&resp_iv, &[kdf::SALT_AEAD_RESP_HEADER_PAYLOAD_IV]), &[], hdr));
+        out
+    }
+}
+
+/// the request of the independent sender; `new` gives a well-formed one, the generators then change single fields
+#[derive(Clone)]
+struct Req {
+    uuid: String,
+    ts: i64,
+    rnd4: Vec<u8>,
+    crc_xor: u32,
+    cnonce: Vec<u8>,
+    version: u8,
+    sess: Vec<u8>,
+    opt: u8,
+    padnib: u8,
+    sec: u8,
+    reserved: u8,
+    cmd: u8,
+    addr: Vec<u8>,
+    padding: Vec<u8>,
+}
+
+impl Req {
+    fn new(rng: &mut Rng, uuid: &str, now: i64) -> Self {
+        Req { uuid: uuid.to_string(), ts: now, rnd4: rng.bytes(4), crc_xor: 0, cnonce: rng.bytes(8), version: 1, sess: rng.bytes(33), opt: 1, padnib: 0, sec: 3, reserved: 0, cmd: 1,
+              addr: craft::addr_wire(1, &[127, 0, 0, 1], 80), padding: Vec::new() }
+    }
+    fn cmdkey(&self) -> [u8; 16] {
+        octo_squirrel::protocol::vmess::id::from_password(&self.uuid).unwrap()
+    }
+    /// everything the checksum covers
+    fn plain(&self) -> Vec<u8> {
+        let mut h = vec![self.version];
+        h.extend_from_slice(&self.sess[..33]);
+        h.extend_from_slice(&[self.opt, (self.padnib << 4) | (self.sec & 15), self.reserved, self.cmd]);
+        h.extend_from_slice(&self.addr);
+        h.extend_from_slice(&self.padding);
+        h
+    }
+    fn plain_ck(&self, ck_xor: u32) -> Vec<u8> {
+        let mut h = self.plain();
+        let ck = craft::fnv1a32(&h) ^ ck_xor;
+        h.extend_from_slice(&ck.to_be_bytes());
+        h
+    }
+    fn auth_id(&self) -> Vec<u8> {
+        craft::auth_id(&self.cmdkey(), self.ts, &self.rnd4, self.crc_xor)
+    }
+    fn head_of(&self, plain: &[u8], claimed: Option<u16>) -> Vec<u8> {
+        craft::seal_header(&self.cmdkey(), &self.auth_id(), &self.cnonce, plain, claimed)
+    }
+    fn head(&self) -> Vec<u8> {
+        self.head_of(&self.plain_ck(0), None)
+    }
+    /// the body as the client's body encoder writes it for this header's options (stream for TCP, one chunk per write for UDP)
+    fn body(&self, writes: &[Vec<u8>]) -> Vec<u8> {
+        let ws: Vec<(bool, Vec<u8>)> = writes.iter().map(|x| (self.cmd == 2, x.clone())).collect();
+        body_encode(self.opt, self.sec, true, &self.sess, &ws).concat()
+    }
+}
+
+/// what one end's body encoder puts on the wire: one output per write; (true, x) = encode_packet, (false, x) = encode_payload
+fn body_encode(opt: u8, sec: u8, client: bool, sess: &[u8], writes: &[(bool, Vec<u8>)]) -> Vec<Vec<u8>> {
+    let hd = header(opt, sec, 1, parse_addr("4:7f000001:1"), [0; 16]);
+    let cs = ClientSession::from(&sess[..]);
+    let ss: ServerSession = cs.clone().into();
+    let mut s: Box<dyn Session> = if client { Box::new(cs) } else { Box::new(ss) };
+    let mut enc = AEADBodyCodec::new_encoder(&hd, &mut *s).unwrap();
+    writes.iter()
+        .map(|(packet, x)| {
+            let mut dst = BytesMut::new();
+            if *packet { enc.encode_packet(BytesMut::from(&x[..]), &mut dst, &mut *s).expect("encode_packet") } else { enc.encode_payload(BytesMut::from(&x[..]), &mut dst, &mut *s).expect("encode_payload") }
+            dst.to_vec()
+        })
+        .collect()
+}
+
+fn flip_uuid_bit(uuid: &str, bit: usize) -> String {
+    let mut b = unhex(&uuid.replace('-', ""));
+    b[bit / 8] ^= 1 << (bit % 8);
+    let h = hex(&b);
+    format!("{}-{}-{}-{}-{}", &h[0..8], &h[8..12], &h[12..16], &h[16..20], &h[20..32])
+}
+
+fn xof_u16s(seed: &[u8], n: usize) -> Vec<u16> {
+    let out = crate::prims::answer(&format!("shake128 {} {}", hex(seed), 2 * n)).expect("shake128");
+    (0..n).map(|i| u16::from_be_bytes([out[2 * i], out[2 * i + 1]])).collect()
+}
+
+fn generate_audit(w: &mut dyn Write, rng: &mut Rng, masks: &[u8], thorough: bool, now: i64) {
+    let (ua, ub, uc) = ("b831381d-6324-4d53-ad4f-8cda48b30811", "11111111-2222-3333-4444-555555555555", "00000000-0000-0000-0000-000000000001");
+    let mapped: Vec<u8> = [vec![0u8; 10], vec![0xff, 0xff, 192, 0, 2, 1]].concat();
+    let addr_wires: Vec<Vec<u8>> = vec![
+        craft::addr_wire(1, &[127, 0, 0, 1], 80),
+        craft::addr_wire(2, b"example.com", 443),
+        craft::addr_wire(3, &unhex(&"20010db8".repeat(4)), 8080),
+        craft::addr_wire(2, &[b'a'; 255], 1),
+        craft::addr_wire(2, b"x", 0),
+        craft::addr_wire(3, &mapped, 65535),
+        craft::addr_wire(1, &[0, 0, 0, 0], 0),
+        craft::addr_wire(2, "日本.example".as_bytes(), 65535),
+    ];
+    let srv = |w: &mut dyn Write, now: i64, users: &str, ops: String, meta: String| crate::emit_case(w, &["vmsrv".to_string(), now.to_string(), users.to_string(), ops, meta], exec);
+    let d = |x: &[u8]| format!("D{}", hex(x));
+    let two = format!("{},{}", uc, ua);
+    let xmeta = |ws: &[Vec<u8>]| format!("@x={}", hex(&ws.concat()));
+    let writes_for = |rng: &mut Rng, cmd: u8| if cmd == 1 { vec![rng.bytes(1), rng.bytes(50)] } else { vec![rng.bytes(7), vec![], rng.bytes(30)] };
+
+    // ---- A. header padding length 0..15 (the client draws it at random), both commands, every address shape ----
+    for padnib in 0..16u8 {
+        for cmd in [1u8, 2] {
+            let mut r = Req::new(rng, ua, now);
+            r.padnib = padnib;
+            r.padding = rng.bytes(padnib as usize);
+            r.cmd = cmd;
+            r.sec = if (padnib + cmd) % 2 == 0 { 3 } else { 4 };
+            r.opt = masks[(padnib as usize * 2 + cmd as usize) % masks.len()];
+            r.addr = addr_wires[(padnib as usize + cmd as usize) % addr_wires.len()].clone();
+            let ws = writes_for(rng, cmd);
+            let (head, body) = (r.head(), r.body(&ws));
+            srv(w, now, &two, d(&[head.clone(), body.clone()].concat()), xmeta(&ws));
+            srv(w, now, &two, format!("{};{}", d(&head), d(&body)), xmeta(&ws));
+        }
+    }
+    // ---- B. every security nibble 0..15: 3 and 4 select the cipher, all others are decoded like 3 (recorded in the audit) ----
+    for sec in 0..16u8 {
+        for opt in [1u8, 29] {
+            let mut r = Req::new(rng, ua, now);
+            r.sec = sec;
+            r.opt = opt;
+            r.cmd = 1 + (sec + opt) % 2;
+            let ws = writes_for(rng, r.cmd);
+            let wire = [r.head(), r.body(&ws)].concat();
+            srv(w, now, &two, d(&wire), if sec == 3 || sec == 4 { xmeta(&ws) } else { "@-".into() });
+        }
+    }
+    // ---- C. command bytes other than TCP / UDP: refused, nothing released ----
+    let cmds: Vec<u8> = if thorough { (0..=255u8).filter(|c| *c != 1 && *c != 2).collect() } else { vec![0, 3, 4, 5, 0x11, 0x7f, 0x80, 0x81, 0x82, 0xff] };
+    for c in cmds {
+        let mut r = Req::new(rng, ua, now);
+        r.cmd = c;
+        r.opt = *rng.pick(masks);
+        let ws = vec![rng.bytes(20)];
+        let wire = [r.head(), r.body(&ws)].concat();
+        srv(w, now, &two, d(&wire), "@n".into());
+    }
+    // ---- D. version and reserved byte (neither is looked at) ----
+    for (v, res) in [(0u8, 0u8), (2, 0), (255, 0), (1, 1), (1, 255), (0, 255)] {
+        let mut r = Req::new(rng, ua, now);
+        r.version = v;
+        r.reserved = res;
+        let ws = vec![rng.bytes(9)];
+        srv(w, now, &two, d(&[r.head(), r.body(&ws)].concat()), "@-".into());
+    }
+    // ---- E. option byte over all 256 values (quick: the reuse bit, the three unknown bits, a seeded sample) ----
+    let mut opts: Vec<u8> = if thorough { (0..=255u8).collect() } else { vec![2, 3, 6, 7, 19, 31, 32, 33, 64, 128, 0xe1, 0xed, 0xfd, 0xff] };
+    if !thorough {
+        for _ in 0..10 {
+            opts.push(rng.below(256) as u8);
+        }
+    }
+    for (i, opt) in opts.into_iter().enumerate() {
+        let mut r = Req::new(rng, ua, now);
+        r.opt = opt;
+        r.cmd = 1 + (i % 2) as u8;
+        r.sec = 3 + ((i / 2) % 2) as u8;
+        let ws = writes_for(rng, r.cmd);
+        srv(w, now, &two, d(&[r.head(), r.body(&ws)].concat()), xmeta(&ws));
+    }
+    // ---- F. address field of an authenticated header: type bytes, empty / non-UTF-8 names, lengths that run into the checksum ----
+    let types: Vec<u8> = if thorough { (0..=255u8).filter(|t| !(1..=3).contains(t)).collect() } else { vec![0, 4, 5, 0x7f, 0x80, 0x81, 0x83, 0xff] };
+    for t in types {
+        let mut r = Req::new(rng, ua, now);
+        r.addr = [vec![0, 80, t], rng.bytes(8)].concat();
+        srv(w, now, &two, d(&[r.head(), r.body(&[rng.bytes(5)])].concat()), "@n".into());
+    }
+    let bad_names: Vec<Vec<u8>> = vec![vec![0xff, 0xfe], vec![b'a', 0xc3], vec![0xed, 0xa0, 0x80], vec![0xc0, 0xaf], vec![0xf4, 0x90, 0x80, 0x80], vec![0x80], [vec![b'a'; 254], vec![0xc3]].concat()];
+    for n in bad_names {
+        let mut r = Req::new(rng, ua, now);
+        r.addr = craft::addr_wire(2, &n, 443);
+        srv(w, now, &two, d(&[r.head(), r.body(&[rng.bytes(5)])].concat()), "@n".into());
+    }
+    for n in [&b""[..], "é".as_bytes(), "\u{1F600}.example".as_bytes(), &[0u8][..], &[b'.'; 255][..]] {
+        let mut r = Req::new(rng, ua, now);
+        r.addr = craft::addr_wire(2, n, 443);
+        let ws = vec![rng.bytes(5)];
+        srv(w, now, &two, d(&[r.head(), r.body(&ws)].concat()), "@-".into());
+    }
+    for a in [vec![0, 80, 2, 200, b'a', b'b', b'c'], vec![0, 80, 2, 7, b'a', b'b', b'c'], vec![0, 80, 2], vec![0, 80, 1, 127, 0], vec![0, 80, 1], [vec![0, 80, 3], vec![1; 15]].concat(), vec![0, 80], vec![0], vec![]] {
+        let mut r = Req::new(rng, ua, now);
+        r.addr = a;
+        srv(w, now, &two, d(&[r.head(), r.body(&[rng.bytes(5)])].concat()), "@n".into());
+    }
+    // ---- G. declared padding length differs from the padding present ----
+    for (nib, actual) in [(5u8, 0usize), (5, 4), (5, 6), (0, 3), (15, 14), (15, 16), (1, 0), (0, 1), (15, 0)] {
+        let mut r = Req::new(rng, ua, now);
+        r.padnib = nib;
+        r.padding = rng.bytes(actual);
+        srv(w, now, &two, d(&[r.head(), r.body(&[rng.bytes(5)])].concat()), "@n".into());
+    }
+    // ---- H. FNV-1a checksum: every checksum bit, and header bits changed under the old checksum (both well-sealed) ----
+    {
+        let mut r = Req::new(rng, ua, now);
+        r.padnib = 3;
+        r.padding = rng.bytes(3);
+        r.addr = addr_wires[1].clone();
+        let body = r.body(&[rng.bytes(12)]);
+        let bits: Vec<u32> = if thorough { (0..32).collect() } else { (0..8).map(|i| (i * 4 + rng.below(4) as u32) % 32).collect() };
+        for b in bits {
+            srv(w, now, &two, d(&[r.head_of(&r.plain_ck(1 << b), None), body.clone()].concat()), "@n".into());
+        }
+        let good = r.plain_ck(0);
+        for _ in 0..(if thorough { 200 } else { 24 }) {
+            let mut p = good.clone();
+            let bit = rng.below(((p.len() - 4) * 8) as u64) as usize;
+            p[bit / 8] ^= 1 << (bit % 8);
+            srv(w, now, &two, d(&[r.head_of(&p, None), body.clone()].concat()), "@n".into());
+        }
+        // the checksum of the whole header placed correctly but bytes appended behind it / the checksum not at the end
+        let mut p = good.clone();
+        p.extend_from_slice(&rng.bytes(4));
+        srv(w, now, &two, d(&[r.head_of(&p, None), body.clone()].concat()), "@n".into());
+    }
+    // ---- I. header length: shorter than the fixed fields, the fixed fields alone (address parsed out of the checksum), and a
+    //         length field that disagrees with the sealed header ----
+    {
+        let r = Req::new(rng, ua, now);
+        let body = r.body(&[rng.bytes(12)]);
+        for l in [0usize, 1, 3, 4, 5, 20, 37, 38, 41] {
+            let p = rng.bytes(l);
+            srv(w, now, &two, d(&[r.head_of(&p, None), body.clone()].concat()), "@n".into());
+        }
+        let full = r.plain();
+        for keep in 38..full.len() {
+            let mut p = full[..keep].to_vec();
+            let ck = craft::fnv1a32(&p);
+            p.extend_from_slice(&ck.to_be_bytes());
+            srv(w, now, &two, d(&[r.head_of(&p, None), body.clone()].concat()), "@n".into());
+        }
+        let good = r.plain_ck(0);
+        for claimed in [0u16, 1, good.len() as u16 - 1, good.len() as u16 + 1, good.len() as u16 + 16, 65535] {
+            srv(w, now, &two, d(&[r.head_of(&good, Some(claimed)), body.clone()].concat()), "@n".into());
+            srv(w, now, &two, d(&r.head_of(&good, Some(claimed))), "@n".into());
+        }
+    }
+    // ---- J. auth id timestamp exactly at the window edge (the client's own ids carry +-30 s of jitter), extreme values, a
+    //         server clock near the ends of its range, a wrong CRC ----
+    for dt in [-100000i64, -122, -121, -120, -119, -1, 0, 1, 119, 120, 121, 122, 100000] {
+        for (ui, uuid) in [ua, uc].into_iter().enumerate() {
+            let mut r = Req::new(rng, uuid, now);
+            r.ts = now + dt;
+            r.cmd = 1 + ui as u8;
+            let ws = writes_for(rng, r.cmd);
+            srv(w, now, &two, d(&[r.head(), r.body(&ws)].concat()), if dt.abs() <= 120 { xmeta(&ws) } else { "@n".into() });
+        }
+    }
+    for ts in [0i64, -1, 1, i64::MIN, i64::MIN + 1, i64::MAX, i64::MAX - 1, now + (1 << 32), now - (1 << 32), now + (1 << 31), -now, now << 8, 120, 121] {
+        let mut r = Req::new(rng, ua, now);
+        r.ts = ts;
+        srv(w, now, &two, d(&[r.head(), r.body(&[rng.bytes(5)])].concat()), "@n".into());
+    }
+    for (clock, dt) in [(0i64, 120i64), (0, 121), (0, -120), (0, -121), (1, -121), (1, -122), ((1 << 62) - 1, 120), ((1 << 62) - 1, 121), ((1 << 62) - 1, -120), (1 << 40, -121)] {
+        let mut r = Req::new(rng, ua, clock);
+        r.ts = clock + dt;
+        let ws = vec![rng.bytes(5)];
+        srv(w, clock, &two, d(&[r.head(), r.body(&ws)].concat()), if dt.abs() <= 120 { xmeta(&ws) } else { "@n".into() });
+    }
+    for x in [1u32, 0x8000_0000, 0xffff_ffff] {
+        let mut r = Req::new(rng, ua, now);
+        r.crc_xor = x;
+        srv(w, now, &two, d(&[r.head(), r.body(&[rng.bytes(5)])].concat()), "@n".into());
+    }
+    // ---- K. user tables: none, one, many; the sender first / in the middle / last; duplicates; absent ----
+    {
+        let others: Vec<String> = (0..(if thorough { 200 } else { 40 })).map(|_| flip_uuid_bit(&flip_uuid_bit(ub, rng.below(128) as usize), rng.below(128) as usize)).collect();
+        let many = others.join(",");
+        let tables: Vec<(String, bool)> = vec![
+            ("-".to_string(), false),
+            (ua.to_string(), true),
+            (ub.to_string(), false),
+            (format!("{},{},{}", ua, ub, uc), true),
+            (format!("{},{},{}", ub, ua, uc), true),
+            (format!("{},{},{}", ub, uc, ua), true),
+            (format!("{},{}", ua, ua), true),
+            (format!("{},{},{},{}", ub, ua, ua, uc), true),
+            (format!("{},{},{}", ub, ub, uc), false),
+            (format!("{},{}", many, ua), true),
+            (format!("{},{}", ua, many), true),
+            (many.clone(), false),
+        ];
+        for (ti, (table, known)) in tables.iter().enumerate() {
+            let mut r = Req::new(rng, ua, now);
+            r.cmd = 1 + (ti % 2) as u8;
+            r.opt = masks[ti % masks.len()];
+            let ws = writes_for(rng, r.cmd);
+            srv(w, now, table, d(&[r.head(), r.body(&ws)].concat()), if *known { xmeta(&ws) } else { "@n".into() });
+        }
+        // a registered user whose id differs from the sender's in ONE bit (all 128 positions): refused; next to the right one: served
+        let mut r = Req::new(rng, ua, now);
+        r.opt = 29;
+        let ws = writes_for(rng, 1);
+        let wire = [r.head(), r.body(&ws)].concat();
+        for bit in 0..128 {
+            let near = flip_uuid_bit(ua, bit);
+            srv(w, now, &near, d(&wire), "@n".into());
+            if bit % 16 == (rng.below(16) as usize) || thorough {
+                srv(w, now, &format!("{},{},{}", near, ua, uc), d(&wire), xmeta(&ws));
+            }
+        }
+    }
+    // ---- L. splices between users and between connections (all parts well-formed on their own) ----
+    {
+        let users = format!("{},{}", ua, ub);
+        let ra = Req::new(rng, ua, now);
+        let mut rb = ra.clone();
+        rb.uuid = ub.to_string();
+        let body = ra.body(&[rng.bytes(12)]);
+        let (ha, hb) = (ra.head(), rb.head());
+        // auth id of A, everything else sealed under B's key (and the reverse)
+        srv(w, now, &users, d(&[ha[..16].to_vec(), hb[16..].to_vec(), body.clone()].concat()), "@n".into());
+        srv(w, now, &users, d(&[hb[..16].to_vec(), ha[16..].to_vec(), body.clone()].concat()), "@n".into());
+        // two connections of the same user: auth id / length block / nonce / header block taken from different ones
+        let mut r2 = ra.clone();
+        r2.rnd4 = rng.bytes(4);
+        r2.cnonce = rng.bytes(8);
+        let h2 = r2.head();
+        for cut in [16usize, 34, 42] {
+            srv(w, now, &users, d(&[ha[..cut].to_vec(), h2[cut..].to_vec(), body.clone()].concat()), "@n".into());
+        }
+        // the same sealed header behind a fresh auth id of the same user and second
+        let mut r3 = ra.clone();
+        r3.rnd4 = rng.bytes(4);
+        srv(w, now, &users, d(&[r3.auth_id(), ha[16..].to_vec(), body.clone()].concat()), "@n".into());
+        // a well-formed request followed by a second well-formed request on the same connection: the second is body data, and refused
+        let ws = vec![rng.bytes(12)];
+        let first = [ra.head(), ra.body(&ws)].concat();
+        srv(w, now, &users, format!("{};{}", d(&first), d(&[rb.head(), rb.body(&ws)].concat())), format!("@p={}", hex(&ws.concat())));
+    }
+    // ---- M. operation order and the server's own writes: answer before any request; datagram answers at the size limit ----
+    srv(w, now, &two, "E00".into(), "@n".into());
+    srv(w, now, &two, format!("e{};{}", hex(&rng.bytes(3)), d(&rng.bytes(10))), "@n".into());
+    for (i, opt) in [1u8, 17, 29, 13].into_iter().enumerate() {
+        let mut r = Req::new(rng, ua, now);
+        r.cmd = 2;
+        r.opt = opt;
+        r.sec = 3 + (i % 2) as u8;
+        let ws = vec![rng.bytes(3)];
+        let wire = [r.head(), r.body(&ws)].concat();
+        let e = if opt & 8 != 0 { "e" } else { "E" };
+        srv(w, now, &two, format!("{};{}{};{}{};{}-", d(&wire), e, hex(&rng.bytes(65456)), e, hex(&rng.bytes(1)), e), "@-".into());
+        srv(w, now, &two, format!("{};{}{};{}{}", d(&wire), e, hex(&rng.bytes(65457)), e, hex(&rng.bytes(1))), "@-".into());
+    }
+
+    // ---- N. client: well-sealed response heads of every shape (command byte, command length, 1..259 bytes) FOLLOWED BY A VALID BODY ----
+    {
+        let cli = |w: &mut dyn Write, opt: u8, sec: u8, cmd: u8, sess: &[u8], ops: String, meta: String| {
+            crate::emit_case(w, &["vmcli".to_string(), ua.to_string(), opt.to_string(), sec.to_string(), cmd.to_string(), "4:7f000001:80".to_string(), hex(sess), now.to_string(), ops, meta], exec)
+        };
+        let mut k = 0usize;
+        for sec in [3u8, 4] {
+            for cmd in [1u8, 2] {
+                for &opt in &[1u8, 29, masks[(sec as usize + cmd as usize) % masks.len()]] {
+                    let sess = rng.bytes(33);
+                    let rh = sess[32];
+                    let heads: Vec<Vec<u8>> = vec![vec![rh, opt, 0, 0], vec![rh], vec![rh, 0], vec![rh, 0, 0], vec![rh, 0, 1, 0], vec![rh, 0xff, 1, 4, 1, 2, 3, 4], [vec![rh, 0, 255, 255], rng.bytes(255)].concat(),
+                                                vec![rh, 0, 0, 9], vec![rh, 0, 1, 0, 7, 7, 7]];
+                    for h in &heads {
+                        k += 1;
+                        if !thorough && k % 3 != 0 && h.len() != 4 {
+                            continue;
+                        }
+                        let ws = writes_for(rng, cmd);
+                        let wsf: Vec<(bool, Vec<u8>)> = ws.iter().map(|x| (cmd == 2, x.clone())).collect();
+                        let wire = [craft::resp_head(&sess, h, None), body_encode(opt, sec, false, &sess, &wsf).concat()].concat();
+                        cli(w, opt, sec, cmd, &sess, format!("eaa;{}", d(&wire)), xmeta(&ws));
+                        let cutp = 18 + h.len() + 16;
+                        cli(w, opt, sec, cmd, &sess, format!("eaa;{};{}", d(&wire[..cutp]), d(&wire[cutp..])), xmeta(&ws));
+                        // the answer is decoded before the client has written anything (order of operations)
+                        cli(w, opt, sec, cmd, &sess, d(&wire), xmeta(&ws));
+                    }
+                    // the right head of ANOTHER session's byte / a head whose first byte is off by one bit
+                    let ws = vec![rng.bytes(4)];
+                    let wsf: Vec<(bool, Vec<u8>)> = ws.iter().map(|x| (cmd == 2, x.clone())).collect();
+                    let body = body_encode(opt, sec, false, &sess, &wsf).concat();
+                    for bit in 0..8 {
+                        cli(w, opt, sec, cmd, &sess, format!("eaa;{}", d(&[craft::resp_head(&sess, &[rh ^ (1 << bit), opt, 0, 0], None), body.clone()].concat())), "@n".into());
+                    }
+                }
+            }
+        }
+        // ---- O. client encoder: addresses that cannot be written (nothing is sent), datagrams at the size limit ----
+        for cmd in [1u8, 2] {
+            for a in ["D:-:80".to_string(), format!("D:{}:80", "61".repeat(256)), format!("D:{}:80", "61".repeat(300)), format!("D:{}:80", "c3a9".repeat(128))] {
+                crate::emit_case(w, &["vmcli".to_string(), ua.to_string(), "29".into(), "3".into(), cmd.to_string(), a, hex(&rng.bytes(33)), now.to_string(), format!("e{};e{}", hex(&rng.bytes(5)), hex(&rng.bytes(5))), "@n".into()], exec);
+            }
+        }
+        for (opt, sec) in [(1u8, 3u8), (29, 4)] {
+            let sess = rng.bytes(33);
+            for n in [65456usize, 65457] {
+                crate::emit_case(w, &["vmcli".to_string(), ua.to_string(), opt.to_string(), sec.to_string(), "2".into(), "4:7f000001:53".into(), hex(&sess), now.to_string(), format!("e{};e{};e{}", hex(&rng.bytes(3)), hex(&rng.bytes(n)), hex(&rng.bytes(2))), "@-".into()], exec);
+            }
+        }
+    }
+    // ---- P. whole exchanges on the real client and server codecs against the model's own exchange: special addresses, every
+    //         security value the header type can carry, both commands, payload sizes 0 / 1 / a chunk limit ----
+    {
+        let v6 = |h: &str, p: u16| format!("6:{}:{}", h, p);
+        let mut targets: Vec<String> = vec![
+            "4:00000000:0".into(), "4:ffffffff:65535".into(), "4:7f000001:80".into(),
+            v6("00000000000000000000000000000000", 0), v6("00000000000000000000000000000001", 443), v6("00000000000000000000ffffc0000201", 80), v6("00000000000000000000ffff00000000", 1),
+            v6("000000000000000000000000c0000201", 8080), v6("0064ff9b0000000000000000c0000201", 53), v6(&"ff".repeat(16), 65535), v6("fe800000000000000000000000000001", 123),
+            "D:78:1".into(), format!("D:{}:65535", "61".repeat(255)), format!("D:{}:443", "62".repeat(254)), format!("D:{}:443", hex("日本語.example".as_bytes())),
+            "D:3132372e302e302e31:80".into(), "D:3a3a31:80".into(), format!("D:{}:0", hex(b"a.b.")), "D:-:80".into(), format!("D:{}:80", "61".repeat(256)),
+        ];
+        for _ in 0..(if thorough { 40 } else { 6 }) {
+            targets.push(format!("6:00000000000000000000ffff{}:{}", hex(&rng.bytes(4)), rng.below(65536)));
+            targets.push(format!("4:{}:{}", hex(&rng.bytes(4)), rng.below(65536)));
+        }
+        for (i, t) in targets.iter().enumerate() {
+            let cmd = 1 + (i % 2) as u8;
+            let opt = masks[i % masks.len()];
+            let sec = 3 + ((i / 2) % 2) as u8;
+            let (up, down) = (rng.bytes([0usize, 1, 33, 2030][i % 4]), rng.bytes([5usize, 0, 1, 700][i % 4]));
+            let host_len = t.split(':').nth(1).map(|h| unhex(h).len()).unwrap_or(0);
+            let meta = if t.starts_with("D:") && !(1..=255).contains(&host_len) { "@n".to_string() } else { format!("@x={}", hex(&[up.clone(), down.clone()].concat())) };
+            crate::emit_case(w, &["vmrt".to_string(), ua.to_string(), opt.to_string(), sec.to_string(), cmd.to_string(), t.clone(), hex(&rng.bytes(33)), now.to_string(), hex(&up), hex(&down), meta], exec);
+        }
+        for sec in 0..16u8 {
+            for cmd in [1u8, 2] {
+                let opt = if cmd == 1 { 29 } else { 1 };
+                let (up, down) = (rng.bytes(40), rng.bytes(40));
+                let meta = if sec == 3 || sec == 4 { format!("@x={}", hex(&[up.clone(), down.clone()].concat())) } else { "@-".to_string() };
+                crate::emit_case(w, &["vmrt".to_string(), ua.to_string(), opt.to_string(), sec.to_string(), cmd.to_string(), "D:6578616d706c652e636f6d:443".into(), hex(&rng.bytes(33)), now.to_string(), hex(&up), hex(&down), meta], exec);
+            }
+        }
+    }
+
+    // ---- Q. body codec: security values other than 3 / 4, option bytes with unknown bits ----
+    let body = |w: &mut dyn Write, opt: u8, sec: u8, role: &str, sess: &[u8], ops: String, meta: String| crate::emit_case(w, &["vmbody".to_string(), opt.to_string(), sec.to_string(), role.to_string(), hex(sess), ops, meta], exec);
+    for (i, sec) in [0u8, 1, 2, 5, 6, 7, 15, 255].into_iter().enumerate() {
+        for opt in [1u8, 29, 0xed, 0xe2] {
+            let sess = rng.bytes(33);
+            let client = (i + opt as usize) % 2 == 0;
+            let (role, peer) = if client { ("client", "server") } else { ("server", "client") };
+            let ws = vec![rng.bytes(1), rng.bytes(100), rng.bytes(2100)];
+            let e = if opt & 8 != 0 { "e" } else { "E" };
+            body(w, opt, sec, role, &sess, ws.iter().map(|x| format!("{}{}", e, hex(x))).collect::<Vec<_>>().join(";"), "@-".into());
+            let wire = body_encode(opt, sec, client, &sess, &ws.iter().map(|x| (false, x.clone())).collect::<Vec<_>>()).concat();
+            let c = 1 + rng.below(wire.len() as u64 - 1) as usize;
+            body(w, opt, sec, peer, &sess, format!("{};{}", d(&wire[..c]), d(&wire[c..])), xmeta(&ws));
+            let pw = body_encode(opt, sec, client, &sess, &ws.iter().map(|x| (true, x.clone())).collect::<Vec<_>>()).concat();
+            body(w, opt, sec, peer, &sess, format!("U{}", hex(&pw)), xmeta(&ws));
+        }
+    }
+    // ---- R. write sizes at and around the largest chunk payload (2048 - tag - size field [- padding]) and at 2^14 / 2^16 ----
+    let big_combo = (rng.below(4) as usize, 3 + rng.below(2) as u8);
+    for (i, opt) in [1u8, 5, 17, 29, 9, 21].into_iter().enumerate() {
+        for sec in [3u8, 4] {
+            if !thorough && i >= 4 && sec == 4 {
+                continue;
+            }
+            let sess = rng.bytes(33);
+            let client = (i + sec as usize) % 2 == 0;
+            let (role, peer) = if client { ("client", "server") } else { ("server", "client") };
+            let sizes: Vec<usize> = vec![2029, 2030, 2031, 2013, 2014, 2015, 1951, 1952, 1967, 4028, 4060, 4061];
+            let ws: Vec<Vec<u8>> = sizes.iter().map(|&n| rng.bytes(n)).collect();
+            let e = if opt & 8 != 0 { "e" } else { "E" };
+            body(w, opt, sec, role, &sess, ws.iter().map(|x| format!("{}{}", e, hex(x))).collect::<Vec<_>>().join(";"), "@-".into());
+            let outs = body_encode(opt, sec, client, &sess, &ws.iter().map(|x| (false, x.clone())).collect::<Vec<_>>());
+            body(w, opt, sec, peer, &sess, outs.iter().map(|x| d(x)).collect::<Vec<_>>().join(";"), xmeta(&ws));
+            body(w, opt, sec, peer, &sess, d(&outs.concat()), xmeta(&ws));
+            let big: Vec<usize> = if thorough || (i, sec) == big_combo { vec![16383, 16384, 16385, 65535, 65536, 65537] } else { vec![16384, 16385] };
+            let ws: Vec<Vec<u8>> = big.iter().map(|&n| rng.bytes(n)).collect();
+            body(w, opt, sec, role, &sess, ws.iter().map(|x| format!("{}{}", e, hex(x))).collect::<Vec<_>>().join(";"), "@-".into());
+            let outs = body_encode(opt, sec, client, &sess, &ws.iter().map(|x| (false, x.clone())).collect::<Vec<_>>());
+            body(w, opt, sec, peer, &sess, outs.iter().map(|x| d(x)).collect::<Vec<_>>().join(";"), xmeta(&ws));
+        }
+    }
+    // ---- S. chunk-level edits of a stream of single-chunk writes: delete / duplicate / swap / replay, a chunk of the opposite
+    //         direction or of another session spliced in at the same position.  Only a prefix may come out. ----
+    for (mi, &opt) in masks.iter().enumerate() {
+        for sec in [3u8, 4] {
+            let sess = rng.bytes(33);
+            let other = rng.bytes(33);
+            let client = (mi + sec as usize) % 2 == 0;
+            let peer = if client { "server" } else { "client" };
+            let ws: Vec<Vec<u8>> = [1usize, 2, 17, 40, 3, 25].iter().map(|&n| rng.bytes(n)).collect();
+            let n = ws.len();
+            for packet in [false, true] {
+                let wsf: Vec<(bool, Vec<u8>)> = ws.iter().map(|x| (packet, x.clone())).collect();
+                let chunks = body_encode(opt, sec, client, &sess, &wsf);
+                let opposite = body_encode(opt, sec, !client, &sess, &wsf);
+                let foreign = body_encode(opt, sec, client, &other, &wsf);
+                let mut edits: Vec<Vec<Vec<u8>>> = Vec::new();
+                let ks: Vec<usize> = if packet && !thorough { vec![0, 3] } else { (0..n).collect() };
+                for &k in &ks {
+                    let mut v = chunks.clone();
+                    v.remove(k);
+                    edits.push(v);
+                    let mut v = chunks.clone();
+                    v.insert(k, chunks[k].clone());
+                    edits.push(v);
+                    if k + 1 < n {
+                        let mut v = chunks.clone();
+                        v.swap(k, k + 1);
+                        edits.push(v);
+                    }
+                    let mut v = chunks.clone();
+                    v[k] = opposite[k].clone();
+                    edits.push(v);
+                    let mut v = chunks.clone();
+                    v[k] = foreign[k].clone();
+                    edits.push(v);
+                }
+                let mut v = chunks.clone();
+                v.push(chunks[0].clone());
+                edits.push(v);
+                let op = if packet { "U" } else { "D" };
+                for (ei, e) in edits.iter().enumerate() {
+                    // alternately in one read and chunk by chunk
+                    let o = if ei % 2 == 0 { format!("{}{}", op, hex(&e.concat())) } else { ops(op, e) };
+                    body(w, opt, sec, peer, &sess, o, format!("@p={}", hex(&ws.concat())));
+                }
+            }
+        }
+    }
+    // ---- T. stream and datagram framing mixed on one connection: an EMPTY chunk inside a stream, chunks written as packets read
+    //         as a stream and the reverse (one chunk = one datagram) ----
+    for (i, opt) in [1u8, 13, 17, 29].into_iter().enumerate() {
+        for sec in [3u8, 4] {
+            let sess = rng.bytes(33);
+            let client = (i + sec as usize) % 2 == 1;
+            let peer = if client { "server" } else { "client" };
+            let (a, b, c) = (rng.bytes(30), rng.bytes(5000), rng.bytes(7));
+            let mixed = body_encode(opt, sec, client, &sess, &[(false, a.clone()), (true, vec![]), (false, b.clone()), (true, vec![]), (true, c.clone())]);
+            let all = [a.clone(), b.clone(), c.clone()];
+            body(w, opt, sec, peer, &sess, d(&mixed.concat()), xmeta(&all));
+            body(w, opt, sec, peer, &sess, ops("D", &mixed), xmeta(&all));
+            body(w, opt, sec, peer, &sess, ops("U", &mixed), xmeta(&all));
+            let bytewise: Vec<Vec<u8>> = mixed[..2].concat().iter().map(|x| vec![*x]).collect();
+            body(w, opt, sec, peer, &sess, ops("D", &bytewise), xmeta(&[a.clone()]));
+        }
+    }
+    // ---- T2. chunks LARGER than this implementation ever writes in a stream (other senders use 8 / 16 KiB chunks; the datagram
+    //         encoder is used to produce them): 2049, around 2^14, and the largest chunk there is (65456 + padding + tag), read
+    //         as a stream and as datagrams, whole and cut inside.  The generator above only ever ENCODED the largest datagram. ----
+    let big_t = (rng.below(4) as usize, 3 + rng.below(2) as u8);
+    for (i, opt) in [1u8, 13, 17, 29].into_iter().enumerate() {
+        for sec in [3u8, 4] {
+            let sess = rng.bytes(33);
+            let client = (i + sec as usize) % 2 == 0;
+            let peer = if client { "server" } else { "client" };
+            let sizes: Vec<usize> = if thorough || (i, sec) == big_t { vec![2049, 16383, 16384, 16385, 65456, 0, 65455] } else { vec![2049, 16366, 16384, 16385] };
+            let ws: Vec<Vec<u8>> = sizes.iter().map(|&n| rng.bytes(n)).collect();
+            let chunks = body_encode(opt, sec, client, &sess, &ws.iter().map(|x| (true, x.clone())).collect::<Vec<_>>());
+            let wire = chunks.concat();
+            body(w, opt, sec, peer, &sess, d(&wire), xmeta(&ws));
+            body(w, opt, sec, peer, &sess, ops("U", &chunks), xmeta(&ws));
+            let c = chunks[0].len() + chunks[1].len() + 1 + rng.below(chunks[2].len() as u64 - 1) as usize;
+            body(w, opt, sec, peer, &sess, format!("U{};U{}", hex(&wire[..c]), hex(&wire[c..])), xmeta(&ws));
+            body(w, opt, sec, peer, &sess, format!("{};{}", d(&wire[..c]), d(&wire[c..])), xmeta(&ws));
+        }
+    }
+    // ---- X. encoder and decoder of ONE end used alternately (they share the session object: the request iv doubles as the
+    //         nonce of the payload counter of one direction and of the sealed-length counter of BOTH): body level with the
+    //         encoder's bytes compared, and the server codec answering between the reads ----
+    for (mi, &opt) in masks.iter().enumerate() {
+        for sec in [3u8, 4] {
+            if !thorough && (mi + sec as usize) % 2 == 1 && mi >= 4 {
+                continue;
+            }
+            let sess = rng.bytes(33);
+            let client = (mi + sec as usize) % 2 == 0;
+            let role = if client { "client" } else { "server" };
+            let packet = mi % 3 == 2;
+            let inbound: Vec<Vec<u8>> = [3usize, 0, 40, 1, 2100, 17].iter().map(|&n| rng.bytes(n)).filter(|x| packet || !x.is_empty()).collect();
+            let chunks = body_encode(opt, sec, !client, &sess, &inbound.iter().map(|x| (packet, x.clone())).collect::<Vec<_>>());
+            let e = match (packet, opt & 8 != 0) {
+                (false, false) => "E",
+                (false, true) => "e",
+                (true, false) => "P",
+                (true, true) => "p",
+            };
+            let mut o: Vec<String> = Vec::new();
+            for (k, c) in chunks.iter().enumerate() {
+                o.push(format!("{}{}", e, hex(&rng.bytes([1usize, 30, 2500, 2, 0, 9][k % 6]))));
+                if k % 2 == 0 {
+                    o.push(format!("{}{}", if packet { "U" } else { "D" }, hex(c)));
+                } else {
+                    let cut = 1 + rng.below(c.len() as u64 - 1) as usize;
+                    o.push(format!("{}{}", if packet { "U" } else { "D" }, hex(&c[..cut])));
+                    o.push(format!("{}{}", e, hex(&rng.bytes(5))));
+                    o.push(format!("{}{}", if packet { "U" } else { "D" }, hex(&c[cut..])));
+                }
+            }
+            body(w, opt, sec, role, &sess, o.join(";"), xmeta(&inbound));
+            // the server codec: request head + first chunk, answer, next chunk, answer, ...
+            let mut r = Req::new(rng, ua, now);
+            r.opt = opt;
+            r.sec = sec;
+            r.cmd = if packet { 2 } else { 1 };
+            let up: Vec<Vec<u8>> = [5usize, 300, 1, 2200].iter().map(|&n| rng.bytes(n)).collect();
+            let cs = body_encode(opt, sec, true, &r.sess, &up.iter().map(|x| (packet, x.clone())).collect::<Vec<_>>());
+            let ee = if opt & 8 != 0 { "e" } else { "E" };
+            let mut o = vec![d(&[r.head(), cs[0].clone()].concat())];
+            for (k, c) in cs.iter().enumerate().skip(1) {
+                o.push(format!("{}{}", ee, hex(&rng.bytes([7usize, 2100, 1][k % 3]))));
+                o.push(d(c));
+            }
+            o.push(format!("{}{}", ee, hex(&rng.bytes(3))));
+            srv(w, now, &two, o.join(";"), xmeta(&up));
+        }
+    }
+    // ---- U. the FIRST size field forced to chosen values under masking (known mask) and under AuthenticatedLength (well-sealed):
+    //         0, below / at / above tag + padding, 0xffff, and for the sealed form the values beyond 16 bits ----
+    {
+        use sha2::Digest;
+        for (i, opt) in [5u8, 13, 17, 29, 25].into_iter().enumerate() {
+            for sec in [3u8, 4] {
+                let sess = rng.bytes(33);
+                let server = (i + sec as usize) % 2 == 0;
+                let role = if server { "server" } else { "client" };
+                // this role's decoder: the server reads with the request iv, the client with the response iv
+                let seed = if server { sess[0..16].to_vec() } else { sha2::Sha256::digest(&sess[0..16])[..16].to_vec() };
+                let x = xof_u16s(&seed, 2);
+                let (pad, mask) = if opt & 8 != 0 { ((x[0] % 64) as usize, x[1]) } else { (0usize, x[0]) };
+                let mut lens: Vec<usize> = vec![0, 1, 15, 16, 17, pad + 15, pad + 16, pad + 17, 200, 0xffff, 0xffff + 16];
+                lens.sort();
+                lens.dedup();
+                for l in lens {
+                    let field = if opt & 16 != 0 {
+                        if l < 16 {
+                            continue;
+                        }
+                        let k = craft::kdf16(&sess[16..32], &[b"auth_len"]);
+                        let nonce = [vec![0u8, 0], sess[2..12].to_vec()].concat();
+                        let v = ((l - 16) as u16).to_be_bytes();
+                        if sec == 4 { craft::seal("chacha20", &octo_squirrel::protocol::vmess::auth::generate_chacha20_poly1305_key(&k), &nonce, &[], &v) } else { craft::seal("aes128gcm", &k, &nonce, &[], &v) }
+                    } else {
+                        if l > 0xffff {
+                            continue;
+                        }
+                        (mask ^ l as u16).to_be_bytes().to_vec()
+                    };
+                    let wire = [field, rng.bytes(l.min(300) + 5)].concat();
+                    body(w, opt, sec, role, &sess, d(&wire), "@n".into());
+                    body(w, opt, sec, role, &sess, format!("U{}", hex(&wire)), "@n".into());
+                }
+            }
+        }
+    }
+    // ---- W. the 16-bit chunk counters (payload nonce, sealed-length nonce) up to and across 65535 -> 0: 65534 chunks are written
+    //         (R) / written by the peer and read (L, M), then the next ones are compared byte for byte.  Without masking and
+    //         padding only (the model's SHAKE stream costs quadratic time); thorough: both ciphers and both roles. ----
+    {
+        let combos: Vec<(u8, u8, &str)> = if thorough { vec![(1, 3, "client"), (1, 4, "server"), (17, 3, "server"), (17, 4, "client"), (16, 3, "client")] } else { vec![(17, 3 + (rng.below(2) as u8), if rng.chance(1, 2) { "client" } else { "server" })] };
+        for (opt, sec, role) in combos {
+            let sess = rng.bytes(33);
+            body(w, opt, sec, role, &sess, format!("R65533,{};E{};E{};E{};E{}", hex(&rng.bytes(1)), hex(&rng.bytes(2)), hex(&rng.bytes(1)), hex(&rng.bytes(3)), hex(&rng.bytes(2))), "@-".into());
+            if thorough {
+                body(w, opt, sec, role, &sess, format!("L65533,{};L5,{};M3,{}", hex(&rng.bytes(1)), hex(&rng.bytes(2)), hex(&rng.bytes(4))), "@-".into());
+            }
+        }
     }
 }
